@@ -163,14 +163,19 @@ fn realize<const A: usize, const HN: usize>(st: &mut Setup) {
     let mut m = Matcher::new(Config::DEFAULT);
     let mut j = 0;
     while j < HN {
+        // the shortest realisation: exactly the letters of the atoms that are to match (an input
+        // as short as its needle is the boundary case of every length comparison); the input's own
+        // letter only when no atom is to match
         let mut h = String::new();
-        h.push((b'p' + j as u8) as char);
         let mut a = 0;
         while a < A {
             if t.res[a][j].is_some() {
                 h.push((b'a' + a as u8) as char);
             }
             a += 1;
+        }
+        if h.is_empty() {
+            h.push((b'p' + j as u8) as char);
         }
         let mut a = 0;
         while a < A {
